@@ -17,7 +17,7 @@ Local Open Scope N_scope.
 (* ((DEFAULT_MAX_SEG / 2) & !1).max(2) *)
 Definition bool_target : N := 32.
 
-Inductive bterm := BEnd | BErr | BPanic.
+Inductive bterm := BEnd | BErr.
 
 (* the read / validate half of the loop; [first] = `run_index == 0` *)
 Fixpoint bool_raw (fuel : nat) (first : bool) (b : bytes) : list N * bterm :=
@@ -73,7 +73,6 @@ Definition bool_load_counts (p : list N * bterm) : res (list (N * bool)) :=
   match t with
   | BEnd => bfinish st cs
   | BErr => Err
-  | BPanic => Panic
   end.
 
 (* Column::<bool>::load, as the run list of the loaded column *)
